@@ -413,3 +413,39 @@ package stun
 //@   requires m != nil && DecodedViews(m)
 //@   pure
 //@   allocates
+
+// ---- building (C03, C08, C09) ----
+
+// Fits(m, vl): appending a value of vl bytes keeps every length representable (the property's precondition:
+// "encoded size fits STUN's 16-bit length field"; Add has no error return for unrepresentable sizes).
+//@ define Fits(m, vl) = 0 <= vl && vl <= 65535 && m.Length + 4 + pad4(vl) <= 65535
+
+//@ func (*Message).Add
+//@   safety C03 C08 C09
+//@   props C03 C08 C09 C06 C04 C05
+//@   requires m != nil && len(m.Raw) >= 20 + m.Length && Fits(m, len(val))
+//@   requires region(val) != region(m.Raw) || off(val) + len(val) <= off(m.Raw) + 20 + m.Length || off(val) == off(m.Raw) + 20 + m.Length + 4
+//@   assigns m.Raw, m.Length, m.Attributes, mem(m.Raw), mem(m.Attributes)
+//@   allocates
+//@   ensures m.Length == old(m.Length) + 4 + pad4(len(val)) && len(m.Raw) == 20 + m.Length
+//@   ensures region(m.Raw) == old(region(m.Raw)) || fresh(m.Raw)
+//@   ensures region(m.Raw) == old(region(m.Raw)) ==> off(m.Raw) == old(off(m.Raw))
+//@   ensures be16(m.Raw, 2) == m.Length
+//@   ensures forall(i, 0, 20 + old(m.Length), i == 2 || i == 3 || m.Raw[i] == old(m.Raw[i]))
+//@   ensures be16(m.Raw, 20 + old(m.Length)) == attrType && be16(m.Raw, 20 + old(m.Length) + 2) == len(val)
+//@   ensures forall(j, 0, len(val), m.Raw[20 + old(m.Length) + 4 + j] == old(val[j]))
+//@   ensures forall(j, len(val), pad4(len(val)), m.Raw[20 + old(m.Length) + 4 + j] == 0)
+//@   ensures len(m.Attributes) == old(len(m.Attributes)) + 1
+//@   ensures region(m.Attributes) == old(region(m.Attributes)) || fresh(m.Attributes)
+//@   ensures forall(k, 0, old(len(m.Attributes)), m.Attributes[k] == old(m.Attributes[k]))
+//@   ensures m.Attributes[old(len(m.Attributes))].Type == attrType && m.Attributes[old(len(m.Attributes))].Length == len(val)
+//@   ensures len(m.Attributes[old(len(m.Attributes))].Value) == len(val)
+//@   ensures forall(j, 0, len(val), m.Attributes[old(len(m.Attributes))].Value[j] == old(val[j]))
+//@   ensures region(m.Attributes[old(len(m.Attributes))].Value) == region(m.Raw) ==> off(m.Attributes[old(len(m.Attributes))].Value) == off(m.Raw) + 20 + old(m.Length) + 4
+//@   loop 0
+//@     assigns buf[0:len(buf)]
+//@     invariant -1 <= rangeindex && forall(j, 0, rangeindex+1, buf[j] == 0)
+//@     decreases len(buf) - rangeindex
+
+//@ func AttrType.Value
+//@   transparent
